@@ -331,3 +331,84 @@ macro_rules! twenty {
         $m!($($a)* roto::Val<host::K>);
     };
 }
+
+// ------------------------------------------------------------------ inferred payloads
+
+/// call `$m!(args.. L)` for the 12 payload leaves of the inferred-payload
+/// family: all 8 integer types, f32, f64, bool, ()
+#[macro_export]
+macro_rules! twelve {
+    ($m:ident ! ( $($a:tt)* )) => {
+        $m!($($a)* u8);
+        $m!($($a)* u16);
+        $m!($($a)* u32);
+        $m!($($a)* u64);
+        $m!($($a)* i8);
+        $m!($($a)* i16);
+        $m!($($a)* i32);
+        $m!($($a)* i64);
+        $m!($($a)* f32);
+        $m!($($a)* f64);
+        $m!($($a)* bool);
+        $m!($($a)* ());
+    };
+}
+
+/// the 10 numeric leaves
+#[macro_export]
+macro_rules! num10 {
+    ($m:ident ! ( $($a:tt)* )) => {
+        $m!($($a)* u8);
+        $m!($($a)* u16);
+        $m!($($a)* u32);
+        $m!($($a)* u64);
+        $m!($($a)* i8);
+        $m!($($a)* i16);
+        $m!($($a)* i32);
+        $m!($($a)* i64);
+        $m!($($a)* f32);
+        $m!($($a)* f64);
+    };
+}
+
+/// `opt_of!(m [args..] T)` = `m!(args.. Option<T>)`
+#[macro_export]
+macro_rules! opt_of {
+    ($m:ident [ $($a:tt)* ] $t:ty) => {
+        $m!($($a)* Option<$t>);
+    };
+}
+
+/// `list_of!(m [args..] T)` = `m!(args.. roto::List<T>)`
+#[macro_export]
+macro_rules! list_of {
+    ($m:ident [ $($a:tt)* ] $t:ty) => {
+        $m!($($a)* roto::List<$t>);
+    };
+}
+
+/// call `$m!(args.. X)` for the 36 payload types: the 12 leaves, Option of
+/// each, List of each. `twelve`, `opt_of` and `list_of` must be in scope.
+#[macro_export]
+macro_rules! all36 {
+    ($m:ident ! ( $($a:tt)* )) => {
+        twelve!($m!($($a)*));
+        twelve!(opt_of!($m [$($a)*]));
+        twelve!(list_of!($m [$($a)*]));
+    };
+}
+
+/// call `$m!(args.. X)` for the 7 types an inferred payload can really have
+/// (`{integer}` is i32 and `{float}` is f64 after lowering), plus ()
+#[macro_export]
+macro_rules! true7 {
+    ($m:ident ! ( $($a:tt)* )) => {
+        $m!($($a)* i32);
+        $m!($($a)* f64);
+        $m!($($a)* Option<i32>);
+        $m!($($a)* Option<f64>);
+        $m!($($a)* roto::List<i32>);
+        $m!($($a)* roto::List<f64>);
+        $m!($($a)* ());
+    };
+}
